@@ -64,7 +64,7 @@ Accepted(e) == Answered(e) /\ Main(e).cause = 1
 \* all checks a step can make; TRUE unless the step sets them
 ChkOK == [one |-> TRUE, type |-> TRUE, seq |-> TRUE, hdrSeid |-> TRUE, cause |-> TRUE, shape |-> TRUE, created |-> TRUE,
           mustReject |-> TRUE, writesNothing |-> TRUE, seidLegal |-> TRUE, teidLegal |-> TRUE, ipLegal |-> TRUE,
-          ipRefusal |-> TRUE, teidProgrammed |-> TRUE, startEmpty |-> TRUE, envelope |-> TRUE, markers |-> TRUE,
+          ipRefusal |-> TRUE, teidProgrammed |-> TRUE, addressed |-> TRUE, startEmpty |-> TRUE, envelope |-> TRUE, markers |-> TRUE,
           pfdKept |-> TRUE, hbTs |-> TRUE]
 
 \* C02 checks common to every request kind
@@ -304,7 +304,10 @@ DelEv ==
        IF acc
        THEN [common EXCEPT !.mustReject = known, !.hdrSeid = (known => m.hasSeid /\ m.seid = sess[u].cp)]
        ELSE [common EXCEPT !.hdrSeid = (Answered(e) /\ ~known => m.seid = "zero"),
-                           !.writesNothing = (Answered(e) /\ ~known => e.cmds = cmds)]
+                           !.writesNothing = (Answered(e) /\ ~known => e.cmds = cmds),
+                           \* the UP F-SEID returned at establishment addresses the session: a deletion that names a
+                           \* live session of this peer is not refused (no datapath fault is injected in these runs)
+                           !.addressed = ~(Answered(e) /\ known /\ e.errs = 0)]
   /\ last' = [ev |-> "req", kind |-> "del", accepted |-> acc /\ known, u |-> IF acc /\ known THEN u ELSE "-"]
   /\ Advance
 
@@ -352,6 +355,7 @@ C02_HeaderSeidAddressing == chk.hdrSeid
 C02_CauseCarried == chk.cause
 C02_EstablishmentResponseShape == chk.shape
 C02_CreatedPdrPerChosenValue == chk.created
+C02_FseidAddressesSession == chk.addressed
 
 \* C03
 AfterAcceptedSessionReq == last.ev = "req" /\ last.kind \in {"estab", "mod", "del"} /\ last.accepted
